@@ -1,1 +1,173 @@
-(* stub: to be written by group Rates *)
+(* Model of the exchange-rate look-up of tsiemens/acb (group "rates"):
+     src/fx/io/remote_rate_loader.rs   parse_rates_json (per observation)
+     src/fx/io/rate_loader.rs          fill_in_unknown_day_rates, make_date_to_rate_map
+     src/portfolio/io/tx_loader.rs     load_rate_if_needed
+     src/portfolio/model/tx.rs         get_valid_exchange_rate
+     src/portfolio/model/currency.rs   CurrencyAndExchangeRate::try_new
+   Definitions only.  Dates are day numbers (days since 1970-01-01); rates are
+   canonical rationals; a year's rates are the Vec<DailyRate> the code builds,
+   looked up with the semantics of the HashMap made from it (last entry of a
+   date wins). *)
+From Coq Require Import List NArith ZArith QArith Qcanon Bool.
+From ACB Require Import Base.Outcome Base.QcExtra Base.Fit Base.Arith.
+Import ListNotations.
+Local Open Scope Z_scope.
+
+(* ------------------------------------------------------------------ dates *)
+(* Proleptic Gregorian calendar, as the `time` crate counts it (assumed
+   oracle, re-validated by the check in mode "dates"). *)
+Definition days_before_year (y : Z) : Z :=
+  let p := y - 1 in 365 * p + p / 4 - p / 100 + p / 400.
+(* day number of January 1st of year y; 1970-01-01 is day 0 *)
+Definition jan1 (y : Z) : Z := days_before_year y - 719162.
+
+(* Date::year(): estimate from below, then correct (at most two steps). *)
+Definition year_est (d : Z) : Z :=
+  let z := d + 719162 in
+  400 * (z / 146097) + (z mod 146097) / 366 + 1.
+Definition year_of (d : Z) : Z :=
+  let y := year_est d in
+  if d <? jan1 (y + 1) then y else if d <? jan1 (y + 2) then y + 1 else y + 2.
+
+Definition year_len (y : Z) : Z := jan1 (y + 1) - jan1 y.
+
+(* ------------------------------------------------------------ daily rates *)
+Definition drate : Type := (Z * Qc)%type.          (* DailyRate {date, foreign_to_local_rate} *)
+
+(* HashMap built by make_date_to_rate_map: later entries overwrite earlier *)
+Fixpoint mget (d : Z) (l : list drate) : option Qc :=
+  match l with
+  | [] => None
+  | (d', r) :: t =>
+      match mget d t with
+      | Some x => Some x
+      | None => if d' =? d then Some r else None
+      end
+  end.
+Definition mhas (d : Z) (l : list drate) : bool :=
+  match mget d l with Some _ => true | None => false end.
+
+(* n placeholder entries (rate zero) for the days from, from+1, ... *)
+Fixpoint zeros (from : Z) (n : nat) : list drate :=
+  match n with
+  | O => []
+  | S k => (from, 0%Qc) :: zeros (from + 1) k
+  end.
+
+(* rate_loader.rs:71-81.  `cur` is date_to_fill.  The inner
+   `while date_to_fill < rate.date` pushes (rate.date - date_to_fill) zeros
+   when that is positive, none otherwise; then the rate itself is pushed and
+   date_to_fill advances by ONE day (not to rate.date + 1). *)
+Fixpoint fill_loop (rates : list drate) (cur : Z) : list drate * Z :=
+  match rates with
+  | [] => ([], cur)
+  | (d, r) :: t =>
+      let n := Z.to_nat (d - cur) in
+      let '(l, c) := fill_loop t (cur + Z.of_nat n + 1) in
+      (zeros cur n ++ (d, r) :: l, c)
+  end.
+
+(* rate_loader.rs:83-90: `while date_to_fill < today && date_to_fill.year() == year`;
+   the loop runs at most (today - cur) times, which is the fuel. *)
+Fixpoint fill_tail (fuel : nat) (cur today y : Z) : list drate :=
+  match fuel with
+  | O => []
+  | S k =>
+      if (cur <? today) && (year_of cur =? y)
+      then (cur, 0%Qc) :: fill_tail k (cur + 1) today y
+      else []
+  end.
+
+(* fill_in_unknown_day_rates(rates, year) with today_local() = today *)
+Definition fill (rates : list drate) (y today : Z) : list drate :=
+  let '(l, c) := fill_loop rates (jan1 y) in
+  l ++ fill_tail (Z.to_nat (today - c)) c today y.
+
+(* ------------------------------------------------- Bank of Canada observations *)
+(* What parse_rates_json sees under a series key of one observation object:
+   the key is absent / present but unusable (container not an object, no "v",
+   not a number, not positive: all reported as non-fatal and the observation
+   skipped) / a positive decimal. *)
+Inductive jval : Type := JAbsent | JBad | JGood (q : Qc).
+Record obs : Type := {
+  o_date : option Z;       (* None: "d" missing, of the wrong type or unparsable *)
+  o_noon : jval;           (* IEXE0101 *)
+  o_daily : jval           (* FXCADUSD *)
+}.
+
+(* remote_rate_loader.rs:115-211, one iteration.  The noon series takes
+   precedence when both are present; a daily observation is inverted with
+   rust_decimal division (dec!(1) / r). *)
+Definition parse_obs (o : obs) : res (option drate) :=
+  match o_date o with
+  | None => Ok None
+  | Some d =>
+      match o_noon o with
+      | JBad => Ok None
+      | JGood r => Ok (Some (d, r))
+      | JAbsent =>
+          match o_daily o with
+          | JBad => Ok None
+          | JAbsent => Ok None
+          | JGood r => x <- a_div dec 1%Qc r ;; Ok (Some (d, x))
+          end
+      end
+  end.
+
+Fixpoint parse_all (l : list obs) : res (list drate) :=
+  match l with
+  | [] => Ok []
+  | o :: t =>
+      x <- parse_obs o ;;
+      r <- parse_all t ;;
+      Ok (match x with Some dr => dr :: r | None => r end)
+  end.
+
+(* get_fx_json_url: which series is requested for a year (true = FXCADUSD) *)
+Definition series_daily (y : Z) : bool := 2017 <=? y.
+
+(* ----------------------------------------------------- row decision rules *)
+Inductive currency : Type := CAD | USD | OtherCur (n : N).
+Definition is_default (c : currency) : bool := match c with CAD => true | _ => false end.
+
+Inductive row_err : Type :=
+| ENoAuto            (* "Currency .. does not support automatically loaded day rates" *)
+| EFxWithoutCurr     (* "<fx col> specified but <curr col> not found" *)
+| ECurrWithoutFx     (* "<curr col> specified but <fx col> not found" *)
+| ENotPositive       (* "<fx col> must be a positive value" *)
+| ECadNotOne.        (* "Default currency (CAD) exchange rate was not 1" *)
+
+(* tx_loader.rs load_rate_if_needed, up to the call of the loader:
+   what has to be done for a (currency, provided rate) pair *)
+Inductive load_decision : Type :=
+| LKeep                       (* Ok(None): leave the row as it is *)
+| LLoadUsd                    (* look the USD/CAD rate of the TRADE date up *)
+| LErr (e : row_err).
+Definition load_decide (curr : option currency) (provided : option Qc) : load_decision :=
+  match provided with
+  | Some _ => LKeep
+  | None =>
+      match curr with
+      | None => LKeep
+      | Some c => if is_default c then LKeep
+                  else match c with USD => LLoadUsd | _ => LErr ENoAuto end
+      end
+  end.
+
+(* tx.rs get_valid_exchange_rate + currency.rs try_new: the (currency, rate)
+   attached to the transaction; None = column pair absent *)
+Definition valid_rate (curr : option currency) (fx : option Qc)
+  : sum row_err (option (currency * Qc)) :=
+  match curr, fx with
+  | None, None => inr None
+  | None, Some _ => inl EFxWithoutCurr
+  | Some c, _ =>
+      match fx with
+      | None => if is_default c then inr (Some (CAD, 1%Qc)) else inl ECurrWithoutFx
+      | Some r =>
+          if Qcltb 0%Qc r then
+            if is_default c && negb (Qceqb r 1%Qc) then inl ECadNotOne
+            else inr (Some (c, r))
+          else inl ENotPositive
+      end
+  end.
